@@ -4,14 +4,15 @@ schedules, API faults, stale Lists and forced name clashes, judged by DeployCorr
 import json
 import vlib, deplib as dl, depgen, depcheck as dc
 
-NAMES = ["spec", "prev", "one", "unique", "monotone", "stable", "noreuse", "progress"]
+NAMES = ["spec", "prev", "one", "unique", "monotone", "stable", "noreuse", "progress", "clash_progress"]
 WHAT = {"spec": "C07 ObjectSet created with a spec other than the template, or while paused / without phases",
         "prev": "C07 ObjectSet created while a sibling has no revision, or previous list incomplete",
         "one": "C07 second ObjectSet created although the newest one has the template's spec",
         "unique": "C07 two ObjectSets of a deployment share a revision number",
         "monotone": "C07 reported revision does not exceed the revisions of the other ObjectSets",
         "stable": "C07 reported revision changed",
-        "noreuse": "C07 name clash with an archived / different ObjectSet resolved by reusing it (or collisionCount not bumped)",
+        "noreuse": "C07 name clash with an archived / different / older ObjectSet resolved by reusing it, or the bumped collisionCount not stored",
+        "clash_progress": "C07 the same name clash met again with the same stored collisionCount (no progress towards a new ObjectSet)",
         "progress": "C07 template not matched by the newest ObjectSet (template change or revert to an earlier template) and no new ObjectSet requested"}
 
 
@@ -49,7 +50,7 @@ def check(run, tier, seed, replay=None):
         pairs = [(ctx, d["scenario"])]
     else:
         pairs = depgen.corpus() + depgen.histories(seed, 300 if tier == "quick" else 5000)
-    res = dl.run_cases(run, pairs, "judge07", 9, "From PKOCorr Require Import C08Corr C07Corr.", shard=100)
+    res = dl.run_cases(run, pairs, "judge07", 10, "From PKOCorr Require Import C08Corr C07Corr.", shard=100)
     npass = 0
     for ctx, sc, obs, r in res:
         if r is None:
